@@ -170,7 +170,7 @@ VM_OUTSIDE = ["stacks deeper than 4, more than 2 frames, more than 2 heap cells,
 VM_NOT_COVERED = ["eval_call_function, object-method invocation and eval_object: their iterator chains (veccat!, collect, IndexMap builds) exhaust "
                   "16-50 GB under CBMC (DESIGN 2); see the MIR/z3 tasks for what is decided about them"]
 VM_ALL = ["literal", "get_local", "set_local", "get_global", "set_global", "drop_label", "jump", "branch", "return", "array",
-          "get_field", "set_field", "array_get", "array_set", "array_other", "aliasing", "loop_stops_at_failure", "loop_runs_to_end", "routing"]
+          "get_field", "set_field", "set_field_non_object", "loop_stops_at_failure", "loop_runs_to_end", "routing"]
 
 
 def vm_prop(pid, quick, extra_all=()):
@@ -187,7 +187,33 @@ def c05():
                            "routing", "loop_runs_to_end"}, VM_ALL)
 
 
-REGISTRY = {"C05": c05, "C03": c03, "C04": c04, "C08": c08, "C09": c09}
+PRINT_SHAPES = [(0, 0), (1, 0), (2, 0), (3, 0), (4, 0), (5, 0)]
+PRINT_FUNCS = ["bytecode::interpreter::eval_print", "state::OperandStack::pop_reverse_sequence", "heap::Pointer::evaluate_as_string (concrete integers)"]
+PRINT_BOUNDS = ["format strings: every ASCII byte string of length 0-5 (bytecode level: any byte after a backslash), plus one two-byte "
+                "character between two ASCII bytes", "arguments: none (a `~` is then a failure)",
+                "output sink: fixed buffer recording every character and the number of write calls"]
+PRINT_OUTSIDE = ["format strings longer than 5 bytes", "a lone trailing backslash (DESIGN 4.1)",
+                 "rendering of integers of more than one digit, booleans, arrays and objects: value-dependent output length (R1); see not_covered"]
+PRINT_NOT_COVERED = ["prints with arguments (substitution order, too many arguments): the popped argument's kind is solver-unknown and rendering it "
+                     "explores the whole recursive renderer; 12 GB exhausted with one concrete integer argument",
+                     "recursive rendering of arrays and objects (evaluate_as_string with real format!/join and std's stable sort): timed out at "
+                     "900 s / 7-14 GB in probing (DESIGN 2); field ordering and nested rendering are not decided by the solver"]
+
+
+def c15():
+    p = Prop("C15")
+    quick = {(0, 0), (1, 0), (2, 0), (3, 0)}
+    for (n, a) in PRINT_SHAPES:
+        p.add("h_print::print_len%d_args%d" % (n, a), quick=(n, a) in quick, timeout=1200,
+              drives=["eval_print"], bound="all ASCII format strings of %d bytes x all %d-argument lists" % (n, a))
+    p.add("h_print::print_two_byte_character", quick=True, timeout=900, bound="a, <any U+0080..U+07FF>, z")
+    p.add("h_print::print_bad_operands", quick=True, timeout=900, bound="non-string format constant, missing constant, short operand stack")
+    p.smt_tasks.append(SmtTask("lexer_regex_c15", "c07_lexer.py", quick=True, timeout=300, args=["C15"]))
+    p.functions, p.bounds, p.outside, p.not_covered = PRINT_FUNCS + ["fml.lalrpop STRING_LITERAL regex (z3)"], PRINT_BOUNDS, PRINT_OUTSIDE, PRINT_NOT_COVERED
+    return p
+
+
+REGISTRY = {"C15": c15, "C05": c05, "C03": c03, "C04": c04, "C08": c08, "C09": c09}
 
 
 def get(pid):
